@@ -12,7 +12,7 @@ git -C /repo apply "$patch" || { echo "seedcheck: patch does not apply"; exit 2;
 (cd /repo/v8 && GOFLAGS=-mod=mod GOPROXY=off go build ./... ) || { echo "seedcheck: patched tree does not build"; exit 2; }
 mkdir -p /tmp/seedcheck-evidence
 cp evidence/$prop.json /tmp/seedcheck-evidence/$prop.before.json 2>/dev/null
-out=$(./run.sh "$prop" "$tier" 2>&1); rc=$?
+out=$(VERIF_NO_REGRESS=${VERIF_NO_REGRESS-1} ./run.sh "$prop" "$tier" 2>&1); rc=$?
 echo "$out" | grep -v '^KNOWN-FINDING' | grep -E 'VIOLATION|signature:|HARNESS-ERROR|^C[0-9]+ (quick|thorough)' | cut -c1-400
 name=$(basename "$(dirname "$patch")")
 mkdir -p /tmp/seedcheck-replays/$prop-$name
